@@ -97,8 +97,9 @@ def run(ctx):
     ctx.prove(extra=["BfsRun", "Export", "ExportMatrices"])
     bfs_cases, bfs_metas, ex_cases, ex_metas = [], [], [], []
     mx_cases, mx_metas = [], []
-    for _ in range(ctx.budget(70, 600)):
-        gd = G.gen_graph(rng, cap=ctx.budget(200, 1200))
+    for it_ in range(ctx.budget(70, 600)):
+        deep = it_ % 9 == 8
+        gd = G.gen_deep_directed(rng, 400, min_layers=12) if deep else G.gen_graph(rng, cap=ctx.budget(200, 1200))
         layers, dist = G.ref_bfs(gd, [gd["central"]])
         starts = None
         if rng.random() < 0.3:
@@ -114,8 +115,16 @@ def run(ctx):
         early = rng.random() < 0.4 and len(layers) >= 3
         if early:
             kw["max_diameter"] = rng.randint(1, len(layers) - 2)
+        if deep:
+            early = False
+            kw.pop("max_diameter", None)
         obs, res = bfsrun.observe(graph, starts, kw, None)
         case = {"graph": gd, "config": cfgd, "bfs": kw, "starts": starts}
+        # the explicit graph of a result that went through a file (save / load): same vertex numbering, names and edges
+        if res is not None and gd["kind"] == "perm" and (deep or rng.random() < 0.15):
+            res = bfsrun.reload_result(res)
+            case["reloaded"] = True
+            ctx.count("exported_after_save_load" + ("_11plus_layers" if len(res.layer_sizes) >= 11 else ""))
         if starts is not None:
             ctx.count("multi_start_runs")
         ctx.case_seen(case, len(dist) >= 4 and len(layers) >= 2)
@@ -130,6 +139,8 @@ def run(ctx):
             for s in (11, 222):
                 g2 = G.make_graph(gd, dict(cfgd, random_seed=s))
                 _, r2 = bfsrun.observe(g2, starts, kw, None)
+                if r2 is not None and case.get("reloaded"):
+                    r2 = bfsrun.reload_result(r2)
                 if r2 is not None and check_export(gd, r2, layers, dist, not early) is None:
                     persists = False
             if persists:
@@ -190,6 +201,8 @@ def replay(ctx, obj):
             if r2 is None:
                 msg = "bfs raised"
                 continue
+            if case.get("reloaded"):
+                r2 = bfsrun.reload_result(r2)
             msg = check_export(gd, r2, layers, dist, "max_diameter" not in case["bfs"])
             if msg is None:
                 return None
